@@ -199,13 +199,22 @@ def symbols (fcommon : Bool) (ds : List Decl) : List SymEntry :=
   ((dedup (blockExternNames ds)).filter (fun x => !(objNames ds).contains x && (usedNames ds).contains x)).map
     (fun x => (⟨.named x, .global, .undef, none, 0⟩ : SymEntry))
 
-/-! ### validity of a unit (what the theorems assume about the input) -/
+/-! ### validity of a unit (what the theorems assume about the input: "this is C") -/
 
 def fnValid (D : List FnDecl) : Bool :=
   -- at most one definition; no `static` after a non-static first declaration; never `static` with `extern`
   decide ((D.filter (·.body.isSome)).length ≤ 1) &&
   D.all (fun d => !(d.isStatic && d.isExtern)) &&
   (fnInternal D || D.all (fun d => !d.isStatic))
+
+/-- the types of the declarations of one object are C types and compatible with each other beyond what the
+    per-declaration conditions of `objValid` say: alignments are positive, and the declarations that leave the array
+    length open agree on the element size (C11 6.2.7p1 / 6.7.6.2p6) -/
+def tysAgree (D : List ObjDecl) : Bool :=
+  D.all (fun d => decide (1 ≤ d.ty.align)) &&
+  (match D.find? (fun d => d.ty.unknownLen) with
+    | some u => D.all (fun d => !d.ty.unknownLen || d.ty.size == u.ty.size)
+    | none => true)
 
 def objValid (D : List ObjDecl) : Bool :=
   decide ((D.filter (·.init.isSome)).length ≤ 1) &&
@@ -217,31 +226,74 @@ def objValid (D : List ObjDecl) : Bool :=
   -- compatible types: equal alignment and array-ness; equal size wherever the size is known
   D.all (fun d => d.ty.align == (D.headD default).ty.align && d.ty.isArray == (D.headD default).ty.isArray &&
                   (!d.ty.unknownLen || d.ty.isArray) && (d.ty.unknownLen || d.ty.size == objSize D) &&
-                  (!d.ty.unknownLen || d.init.isNone))
+                  (!d.ty.unknownLen || d.init.isNone)) &&
+  tysAgree D
 
-/-- identifiers are declared before use, functions and objects use different names, a static function that
-    is referenced is defined -/
-def refsDeclared : List Decl → List Name → List Name → Bool
+/-- the identifiers of a function body are declared at the point of use: a block-scope `extern` declaration
+    counts from its position on -/
+def bodyOrdered (fs xs : List Name) : List BodyItem → Bool
+  | [] => true
+  | .ref (.fn g) :: r => fs.contains g && bodyOrdered fs xs r
+  | .ref (.obj x) :: r => xs.contains x && bodyOrdered fs xs r
+  | .staticLocal _ _ (some init) :: r =>
+    (initFnRefs init).all (fun g => fs.contains g) && (initObjRefs init).all (fun y => xs.contains y) &&
+      bodyOrdered fs xs r
+  | .staticLocal _ _ none :: r => bodyOrdered fs xs r
+  | .str _ :: r => bodyOrdered fs xs r
+  | .externObj x _ _ :: r => bodyOrdered fs (x :: xs) r
+
+/-- identifiers are declared before use (C11 6.2.1p7: the scope of an identifier begins just after its declarator) -/
+def refsOrdered : List Decl → List Name → List Name → Bool
   | [], _, _ => true
   | .func f _ _ _ _ body :: ds, fs, xs =>
-    let okBody := match body with
-      | none => true
-      | some b =>
-        let ext := b.filterMap (fun i => match i with | .externObj x _ _ => some x | _ => none)
-        (bodyFnRefs b).all (fun g => (f :: fs).contains g) && (bodyObjRefs b).all (fun x => (ext ++ xs).contains x)
-    okBody && refsDeclared ds (f :: fs) xs
+    (match body with | none => true | some b => bodyOrdered (f :: fs) xs b) && refsOrdered ds (f :: fs) xs
   | .obj x _ _ _ _ init :: ds, fs, xs =>
-    let okInit := match init with
+    (match init with
       | none => true
-      | some items => (initFnRefs items).all (fun g => fs.contains g) && (initObjRefs items).all (fun y => (x :: xs).contains y)
-    okInit && refsDeclared ds fs (x :: xs)
+      | some items => (initFnRefs items).all (fun g => fs.contains g) && (initObjRefs items).all (fun y => (x :: xs).contains y)) &&
+    refsOrdered ds fs (x :: xs)
 
+/-- the block-scope `extern` declarations of the unit -/
+def blockExterns (ds : List Decl) : List (Name × ObjTy) :=
+  ds.flatMap (fun d => match d with
+    | .func _ _ _ _ _ (some b) => b.filterMap (fun i => match i with | .externObj x _ ty => some (x, ty) | _ => none)
+    | _ => [])
+
+/-- a block-scope `extern` declaration of an object that is also declared at file scope has a compatible type
+    (C11 6.2.7p2: all declarations that refer to the same object shall have compatible type) -/
+def blockExternsAgree (ds : List Decl) : Bool :=
+  (blockExterns ds).all (fun p =>
+    let D := objDecls ds p.1
+    !(objNames ds).contains p.1 ||
+      (p.2.align == (D.headD default).ty.align && p.2.isArray == (D.headD default).ty.isArray &&
+       (!p.2.unknownLen || p.2.isArray) && (p.2.unknownLen || p.2.size == objSize D)))
+
+/-- **a valid C unit**, as far as linkage is concerned -/
 def valid (ds : List Decl) : Bool :=
   (fnNames ds).all (fun f => fnValid (fnDecls ds f)) &&
   (objNames ds).all (fun x => objValid (objDecls ds x)) &&
+  -- functions and objects use different identifiers
   (fnNames ds).all (fun f => !(objNames ds).contains f && !(blockExternNames ds).contains f) &&
-  refsDeclared ds [] [] &&
+  refsOrdered ds [] [] &&
   -- 6.9p3: an identifier with internal linkage that is used is defined in the unit
+  (fnNames ds).all (fun f => !fnInternal (fnDecls ds f) || fnDefined (fnDecls ds f) || !(usedNames ds).contains f) &&
+  blockExternsAgree ds
+
+/-- `valid` without the three conditions that were folded into it (`refsOrdered` instead of the weaker "declared somewhere
+    in the body", `tysAgree`, `blockExternsAgree`).  Not used by any theorem: the driver prints it so that the check can
+    validate exactly those three conditions against gcc (a unit that is `validCore`, not `valid`, and accepted by gcc would
+    show that `valid` says more than "this is C"). -/
+def validCore (ds : List Decl) : Bool :=
+  (fnNames ds).all (fun f => fnValid (fnDecls ds f)) &&
+  (objNames ds).all (fun x =>
+    let D := objDecls ds x
+    decide ((D.filter (·.init.isSome)).length ≤ 1) && D.all (fun d => !(d.isStatic && d.isExtern)) &&
+    (if objInternal D then D.all (fun d => d.isStatic || d.isExtern) else D.all (fun d => !d.isStatic)) &&
+    (D.all (·.isTls) || D.all (fun d => !d.isTls)) &&
+    D.all (fun d => d.ty.align == (D.headD default).ty.align && d.ty.isArray == (D.headD default).ty.isArray &&
+                    (!d.ty.unknownLen || d.ty.isArray) && (d.ty.unknownLen || d.ty.size == objSize D) &&
+                    (!d.ty.unknownLen || d.init.isNone))) &&
+  (fnNames ds).all (fun f => !(objNames ds).contains f && !(blockExternNames ds).contains f) &&
   (fnNames ds).all (fun f => !fnInternal (fnDecls ds f) || fnDefined (fnDecls ds f) || !(usedNames ds).contains f)
 
 /-! ### regions of the known findings (decidable) -/
@@ -311,54 +363,13 @@ def externInitAfterStaticRegion (ds : List Decl) : Bool :=
     let D := objDecls ds x
     objInternal D && D.any (fun d => d.isExtern && d.init.isSome))
 
-/-! ### side conditions of `C15_symbols_partial`: what `valid` leaves open
-
-`valid` is deliberately short; three things a C compiler checks are not in it, and the symbol-table theorem
-needs them.  They are stated here as decidable predicates of their own so that `valid` (and with it the full
-statement and the kernel-checked findings) stays what it was. -/
-
-/-- the identifiers of a function body are declared at the point of use: a block-scope `extern` declaration
-    counts from its position on (`refsDeclared` lets it count for the whole body) -/
-def bodyOrdered (fs xs : List Name) : List BodyItem → Bool
-  | [] => true
-  | .ref (.fn g) :: r => fs.contains g && bodyOrdered fs xs r
-  | .ref (.obj x) :: r => xs.contains x && bodyOrdered fs xs r
-  | .staticLocal _ _ (some init) :: r =>
-    (initFnRefs init).all (fun g => fs.contains g) && (initObjRefs init).all (fun y => xs.contains y) &&
-      bodyOrdered fs xs r
-  | .staticLocal _ _ none :: r => bodyOrdered fs xs r
-  | .str _ :: r => bodyOrdered fs xs r
-  | .externObj x _ _ :: r => bodyOrdered fs (x :: xs) r
-
-/-- `refsDeclared` with `bodyOrdered` for the bodies -/
-def refsOrdered : List Decl → List Name → List Name → Bool
-  | [], _, _ => true
-  | .func f _ _ _ _ body :: ds, fs, xs =>
-    (match body with | none => true | some b => bodyOrdered (f :: fs) xs b) && refsOrdered ds (f :: fs) xs
-  | .obj x _ _ _ _ init :: ds, fs, xs =>
-    (match init with
-      | none => true
-      | some items => (initFnRefs items).all (fun g => fs.contains g) && (initObjRefs items).all (fun y => (x :: xs).contains y)) &&
-    refsOrdered ds fs (x :: xs)
-
-/-- what `objValid` does not say about the types of the declarations of one object: alignments are positive,
-    and the declarations that leave the array length open agree on the element size (compatible types,
-    C11 6.2.7p1 / 6.7.6.2p6) -/
-def tysAgree (D : List ObjDecl) : Bool :=
-  D.all (fun d => decide (1 ≤ d.ty.align)) &&
-  (match D.find? (fun d => d.ty.unknownLen) with
-    | some u => D.all (fun d => !d.ty.unknownLen || d.ty.size == u.ty.size)
-    | none => true)
-
-/-- the side condition of `C15_symbols_partial` -/
-def symbolsSide (ds : List Decl) : Bool :=
-  refsOrdered ds [] [] && (objNames ds).all (fun x => tysAgree (objDecls ds x))
-
-/-- all hypotheses of `C15_symbols_partial` in one predicate (`Props.C15.InScope ds && symbolsSide ds`, by `rfl` in
-    Props/C15.lean); the driver prints it so that the check can tell which generated units the theorem covers -/
-def symbolsScope (ds : List Decl) : Bool :=
-  valid ds && !flagsFrozenDefRegion ds && !deadStaticLocalVisibleRegion ds && !compositeSizeRegion ds &&
-  !externInitAfterStaticRegion ds && symbolsSide ds
+/-- **the scope of the symbol-table theorem**: a valid unit outside the regions of the known findings the code still
+    has.  Each region is guarded by the rule that repairs it: once the repair is in /repo (`Rules.asBuilt` is regenerated
+    from the source on every run) the region drops out.  The driver prints it so that the check can tell which generated
+    units the theorem covers. -/
+def symbolsScope [Rules] (ds : List Decl) : Bool :=
+  valid ds && (Rules.flagsFollow || !flagsFrozenDefRegion ds) && (Rules.ownedData || !deadStaticLocalVisibleRegion ds) &&
+  (Rules.compositeFromDecls || !compositeSizeRegion ds) && (Rules.externInherits || !externInitAfterStaticRegion ds)
 
 /-! ### which address forms are valid for which entity (x86-64 psABI 3.5 code models, ELF TLS ABI)
 
